@@ -292,77 +292,80 @@ class ProgGen:
             v = pick_var(ty, new_ok)
             return None if v is None else ("var", v)
 
-        rule = []
-        nprem = 1 + r.below(4)
-        for _ in range(nprem):
-            k = r.below(10)
-            if k < 6 and preds:
-                p = r.choice(preds)
-                rule.append(("if", ("pred", p, [gen_term(c, 1) for c in rels[p]["cols"]])))
-            elif k < 8 and funcs:
-                f = r.choice(funcs)
-                args = [gen_term(c, 1) for c in rels[f]["cols"][:-1]]
-                t = ("app", f, args)
-                terms_defined.append((t, rels[f]["cols"][-1]))
-                if r.chance(1, 2):
-                    rule.append(("if", ("eq", ("var", pick_var(rels[f]["cols"][-1])), t)))
-                else:
-                    rule.append(("if", ("def", t)))
-            elif k < 9:
-                ty = r.below(sig["ntypes"])
-                rule.append(("if", ("ty", fresh(ty), ty)))
-            else:
-                ty = r.below(sig["ntypes"])
-                a, b = pick_var(ty, False), pick_var(ty, False)
-                if a is not None and b is not None and a != b:
-                    rule.append(("if", ("eq", ("var", a), ("var", b))))
-                else:
-                    rule.append(("if", ("ty", fresh(ty), ty)))
         # conclusions: only variables bound so far and defined terms
         def known_term(ty):
             cands = [("var", v) for v, t in vtype.items() if t == ty] + [t for (t, tt) in terms_defined if tt == ty and not has_wild(t)]
             return r.choice(cands) if cands else None
 
-        nconc = 1 + r.below(2)
-        for _ in range(nconc):
-            k = r.below(10)
-            if k < 5 and preds:
-                p = r.choice(preds)
-                args = [known_term(c) for c in rels[p]["cols"]]
-                if all(a is not None for a in args):
-                    rule.append(("then", ("pred", p, args)))
-            elif k < 7:
-                ty = r.below(sig["ntypes"])
-                a, b = known_term(ty), known_term(ty)
-                if a is not None and b is not None and a != b:
-                    rule.append(("then", ("eq", a, b)))
-            elif not self.surjective_only and funcs:
-                f = r.choice(funcs)
-                cols = rels[f]["cols"]
-                raising = all(c < cols[-1] for c in cols[:-1])
-                if not raising and not r.chance(1, 15):
-                    continue
-                args = [known_term(c) for c in cols[:-1]]
-                if all(a is not None for a in args):
-                    t = ("app", f, args)
-                    if r.chance(1, 2):
-                        v = fresh(cols[-1])
-                        rule.append(("then", ("let", v, t)))
-                    else:
-                        rule.append(("then", ("def", t)))
-                    terms_defined.append((t, cols[-1]))
-            elif funcs:
-                # f(args) = y with known args and known y: asserts a function value (surjective)
-                f = r.choice(funcs)
-                cols = rels[f]["cols"]
-                args = [known_term(c) for c in cols[:-1]]
-                y = known_term(cols[-1])
-                if y is not None and all(a is not None for a in args):
-                    rule.append(("then", ("eq", ("app", f, args), y)))
+        rule = []
+        # one or two stages: `if..; then..;` optionally followed by further `if..; then..;` (interleaved if/then)
+        stages = [(1 + r.below(4), 1 + r.below(2))] + ([(1 + r.below(2), 1)] if r.chance(1, 3) else [])
+        for (nprem, nconc) in stages:
+          for _ in range(nprem):
+              k = r.below(10)
+              if k < 6 and preds:
+                  p = r.choice(preds)
+                  rule.append(("if", ("pred", p, [gen_term(c, 1) for c in rels[p]["cols"]])))
+              elif k < 8 and funcs:
+                  f = r.choice(funcs)
+                  args = [gen_term(c, 1) for c in rels[f]["cols"][:-1]]
+                  t = ("app", f, args)
+                  terms_defined.append((t, rels[f]["cols"][-1]))
+                  if r.chance(1, 2):
+                      rule.append(("if", ("eq", ("var", pick_var(rels[f]["cols"][-1])), t)))
+                  else:
+                      rule.append(("if", ("def", t)))
+              elif k < 9:
+                  ty = r.below(sig["ntypes"])
+                  rule.append(("if", ("ty", fresh(ty), ty)))
+              else:
+                  ty = r.below(sig["ntypes"])
+                  a, b = pick_var(ty, False), pick_var(ty, False)
+                  if a is not None and b is not None and a != b:
+                      rule.append(("if", ("eq", ("var", a), ("var", b))))
+                  else:
+                      rule.append(("if", ("ty", fresh(ty), ty)))
+          for _ in range(nconc):
+              k = r.below(10)
+              if k < 5 and preds:
+                  p = r.choice(preds)
+                  args = [known_term(c) for c in rels[p]["cols"]]
+                  if all(a is not None for a in args):
+                      rule.append(("then", ("pred", p, args)))
+              elif k < 7:
+                  ty = r.below(sig["ntypes"])
+                  a, b = known_term(ty), known_term(ty)
+                  if a is not None and b is not None and a != b:
+                      rule.append(("then", ("eq", a, b)))
+              elif not self.surjective_only and funcs:
+                  f = r.choice(funcs)
+                  cols = rels[f]["cols"]
+                  raising = all(c < cols[-1] for c in cols[:-1])
+                  if not raising and not r.chance(1, 15):
+                      continue
+                  args = [known_term(c) for c in cols[:-1]]
+                  if all(a is not None for a in args):
+                      t = ("app", f, args)
+                      if r.chance(1, 2):
+                          v = fresh(cols[-1])
+                          rule.append(("then", ("let", v, t)))
+                      else:
+                          rule.append(("then", ("def", t)))
+                      terms_defined.append((t, cols[-1]))
+              elif funcs:
+                  # f(args) = y with known args and known y: asserts a function value (surjective)
+                  f = r.choice(funcs)
+                  cols = rels[f]["cols"]
+                  args = [known_term(c) for c in cols[:-1]]
+                  y = known_term(cols[-1])
+                  if y is not None and all(a is not None for a in args):
+                      rule.append(("then", ("eq", ("app", f, args), y)))
         if not any(s[0] == "then" for s in rule):
             return None
         rule = fix_single_vars(rule)
-        if rule is None or not self.control:
+        ks = [st[0] for st in (rule or [])]
+        interleaved = "then" in ks and "if" in ks[ks.index("then"):]
+        if rule is None or not self.control or interleaved:
             return rule
         return self.add_control(sig, rule, vtype, nvars)
 
